@@ -468,9 +468,18 @@ func goEqual(a, b reflect.Value) bool {
 			return false
 		}
 		// by sorted entries rather than by lookup: a NaN key cannot be looked up
+		// (several NaN keys of the same bits may carry different values: match as multisets)
 		ae, be := sortedEntries(a), sortedEntries(b)
+		used := make([]bool, len(be))
 		for i := range ae {
-			if !goEqual(ae[i][0], be[i][0]) || !goEqual(ae[i][1], be[i][1]) {
+			found := false
+			for j := range be {
+				if !used[j] && goEqual(ae[i][0], be[j][0]) && goEqual(ae[i][1], be[j][1]) {
+					used[j], found = true, true
+					break
+				}
+			}
+			if !found {
 				return false
 			}
 		}
